@@ -19,10 +19,13 @@ import ModbusVerif.Lemmas.GoEvalFrameLemmas
     * `execFromW_mono`: a run that does not end `outOfFuel` is the same for every larger fuel.
 
   The rewriting lemmas are the `W` copies of those of `GoEvalLemmas` (non-`@[defeq]`, one node at
-  a time); `go_evalW [...]` = `go_eval` with them added.
+  a time); `go_evalW [...]` / `go_evalW_nowrap [...]` = `go_eval` / `go_eval_nowrap` with them added.
+  A symbolic fuel of the form `m + 6` is fine (`execFromW_seq` unifies `?n + 1` with it).
 
-  Also here: `countCalls` (how often a callee occurs in a log), `Res` observations used by the
-  transport proofs.
+  Also here: `countCalls` / `wasCalled` (how often / whether a callee occurs in a log: what the
+  worlds of Props/C05Src, C07Src, C19SrcExchange key their answers on), `plusVal` (exact integer
+  addition on values), `callTextsOf` (the calls of a term with the texts of their leaf arguments;
+  decidable, unlike `bindCalls`: `GExpr` has no `DecidableEq`).
 -/
 set_option linter.unusedSimpArgs false
 set_option linter.unusedVariables false
@@ -294,13 +297,33 @@ theorem Res_calls_ite (p : Prop) [Decidable p] (x y : Res) :
 theorem Res_env_ite (p : Prop) [Decidable p] (x y : Res) :
     (if p then x else y).env = if p then x.env else y.env := by split <;> rfl
 
+/-- exact integer addition on values (`time.Time.Add`, no wrap-around) -/
+def plusVal : Val → Val → Val
+  | .int a, .int b => .int (a + b)
+  | _, _ => .unk
+theorem plusVal_int (a b) : plusVal (.int a) (.int b) = .int (a + b) := by exact id rfl
+
+/-- the syntactic calls of a statement: callee and the source text of each argument that is a
+    leaf (`none`: a compound expression) -/
+def callTextsOf (s : GStmt) : List (String × List (Option String)) :=
+  (bindCalls s).map (fun c => (c.2.1, c.2.2.map leafText?))
+
 end Modbus.GoEval
 
-/-- `go_evalW [extra]`: `go_eval` for runs of `execFromW` / `execW` -/
+/-- `go_evalW [extra]`: `go_eval` for runs of `execFromW` / `execW`;
+    `go_evalW_nowrap [extra]`: the same with `wrap t v` left folded (see `go_eval_nowrap`) -/
 syntax "go_evalW" (" [" Lean.Parser.Tactic.simpLemma,* "]")? : tactic
+syntax "go_evalW_nowrap" (" [" Lean.Parser.Tactic.simpLemma,* "]")? : tactic
 macro_rules
   | `(tactic| go_evalW) => `(tactic| go_evalW [])
-  | `(tactic| go_evalW [$ls,*]) => `(tactic| go_eval [Modbus.GoEval.execW_def,
+  | `(tactic| go_evalW [$ls,*]) => `(tactic| go_evalW_nowrap [Modbus.GoEval.wrap_u8_def,
+      Modbus.GoEval.wrap_u16_def, Modbus.GoEval.wrap_u32_def, Modbus.GoEval.wrap_u64_def,
+      Modbus.GoEval.wrap_uint_def, Modbus.GoEval.wrap_i8_def, Modbus.GoEval.wrap_i16_def,
+      Modbus.GoEval.wrap_i32_def, Modbus.GoEval.wrap_i64_def, Modbus.GoEval.wrap_int_def,
+      Modbus.GoEval.wrap_bool_def, Modbus.GoEval.wrap_other_def, $ls,*])
+macro_rules
+  | `(tactic| go_evalW_nowrap) => `(tactic| go_evalW_nowrap [])
+  | `(tactic| go_evalW_nowrap [$ls,*]) => `(tactic| go_eval_nowrap [Modbus.GoEval.execW_def,
       Modbus.GoEval.execFromW_seq, Modbus.GoEval.execFromW_loop, Modbus.GoEval.execFromW_skip,
       Modbus.GoEval.execFromW_ret, Modbus.GoEval.execFromW_brk, Modbus.GoEval.execFromW_cont,
       Modbus.GoEval.execFromW_opaque, Modbus.GoEval.execFromW_assign,
@@ -312,4 +335,5 @@ macro_rules
       Modbus.GoEval.loopKW_returned, Modbus.GoEval.loopKW_stuck, Modbus.GoEval.loopKW_stopped,
       Modbus.GoEval.loopKW_oof, Modbus.GoEval.loopKW_ite,
       Modbus.GoEval.countCalls_nil, Modbus.GoEval.countCalls_cons,
-      Modbus.GoEval.wasCalled_nil, Modbus.GoEval.wasCalled_cons, $ls,*])
+      Modbus.GoEval.wasCalled_nil, Modbus.GoEval.wasCalled_cons, Modbus.GoEval.plusVal_int,
+      decide_true, decide_false, ne_eq, not_true_eq_false, not_false_eq_true, $ls,*])
